@@ -1347,6 +1347,13 @@ class Workspace:
                 _write_if_different(os.path.join(self.dir, c, "src", m + ".rs"), self.modules[m])
 
     def build(self, max_rounds=4, timeout=3000):
+        """build under a per-workspace lock: two checks run side by side with the same seed share workspace directories, and
+        the second one must find the first one's stamp (with its exclusion list) instead of rewriting main.rs under a running
+        cargo (seen once as `ERR no-such-module` from a guest binary built from mixed sources)."""
+        with vf.Lock("genrun-ws-" + self.hash + "-" + repo_tag()):
+            return self._build_locked(max_rounds, timeout)
+
+    def _build_locked(self, max_rounds=4, timeout=3000):
         """cargo build (own target dir inside the workspace); modules rustc rejects are excluded (recorded with the first
         error) and the rest rebuilt.  A workspace that was built completely before is not touched again: its key covers the
         generated sources, rt.rs and the path dependencies' sources.  Returns (ok, log)."""
@@ -1402,7 +1409,10 @@ def prune_workspaces(keep=6):
     """remove old ws-* directories of this repo tag (they are caches)"""
     d = base_dir()
     ws = sorted((os.path.getmtime(os.path.join(d, x)), x) for x in os.listdir(d) if x.startswith("ws-"))
-    for _, x in ws[:-keep]:
+    import time
+    for mt, x in ws[:-keep]:
+        if time.time() - mt < 7200:     # possibly in use by a check running side by side
+            continue
         shutil.rmtree(os.path.join(d, x), ignore_errors=True)
 
 
